@@ -10,24 +10,62 @@ class C01(Property):
     namespace = "Rosu.C01"
     design_ref = "5.1"
     required_theorems = ["ofBytes_no_fault", "decode_bytes_never_errs", "decode_err_only_from_reader", "nodes_bounded",
-                         "unsafe_guard_nonzero", "suffix_guarded", "finalize_total_without_sliders"]
+                         "unsafe_guard_nonzero", "suffix_guarded", "finalize_total_without_sliders",
+                         # index safety of the curve code (Lemmas/CurveTotal.lean), every arithmetic / mode / fuel / well-formed buffers
+                         "calculatePath_no_panic", "calculatePath_ok_or_fuel", "compute_no_panic", "new_no_panic",
+                         "newBorrowed_no_panic", "default_wf", "emptyBuffers_wf", "new_no_panic_of_reachable",
+                         "calculateLength_path_le", "positionAt_total_on_curve", "curveWithBufs_no_panic",
+                         # finaliser and decode
+                         "finalizeObjects_no_panic", "HitObjectsState.finish_no_panic", "BeatmapState.finish_no_panic",
+                         "decode_total_modulo_fuel", "decode_hitobjects_total_modulo_fuel",
+                         # encoder
+                         "encodeHitObjects_no_panic", "encode_no_panic_of_nonneg_dist", "encode_no_panic_without_sliders",
+                         "collectObject_panics", "encode_decoded_no_panic_of_dist_nonneg",
+                         "dist_cases", "curveDist_cases", "distOk_of_three",
+                         # fuel, structural part
+                         "bezier_fuel_suffices"]
     partial_theorems = {
-        "decode_total": "proved: every model function is total (Lean termination), reading + framing + all line parsers never produce an error for an in-memory buffer "
-                        "(decode_bytes_never_errs) and cannot panic (no partial operation in their models). NOT proved: that the curve computation inside the finaliser and the "
-                        "slider-event loop inside the encoder never reach an index panic or exhaust their fuel for every float input — the model makes every index/slice/usize "
-                        "subtraction an explicit `CErr.panic` outcome, C16's calculateLength_total and C18's BezierPure show the length adjustment and the Bezier buffer reads cannot "
-                        "panic, but calculate_path as a whole and IEEE termination of the two arithmetic loops are exercised, not proved",
-        "encode_total": "the encoder model can only fail through the same curve / slider-event outcomes (its type is Outcome Str and every other step is a total string function); "
-                        "`String::from_utf8` cannot fail because the model's output is a `List Char` — that the Rust writes the same characters is the char-for-char correspondence",
+        "decode_total": "PROVED for the model (decode_total_modulo_fuel, decode_hitobjects_total_modulo_fuel; the other seven decoders have no fallible finaliser: "
+                        "decode_bytes_never_errs): for every byte string the in-memory decode yields a state without error and the finaliser returns a map or `CErr.fuel` — "
+                        "never `CErr.panic`. Every index / slice / usize subtraction / copy_from_slice / unreachable of calculate_path, calculate_subpath (linear, Catmull, "
+                        "perfect curve with arc or Bezier fallback, B-spline), the joint de-duplication and calculate_length is an explicit panic outcome of the model and is shown "
+                        "unreachable (calculatePath_no_panic, compute_no_panic, new_no_panic, finalizeObjects_no_panic, *.finish_no_panic) for every Scalar/Cvt/Trig instance "
+                        "(no arithmetic law, so also for IEEE), every mode, control-point list, expected length, fuel, and all buffers whose four Bezier scratch vectors have equal "
+                        "lengths (true of CurveBuffers::default(), preserved by every computation: new_no_panic_of_reachable). NOT proved: that the model fuel (2*10^6 rounds of "
+                        "the Bezier flattening loop / the theta_end loop) is never exhausted, i.e. termination of those two arithmetic loops in IEEE. Structural part only: "
+                        "bezier_fuel_suffices (if every piece is flat enough after k halvings — an arithmetic hypothesis, `FlatAfter` — fuel 2^(k+1)-1 suffices on any "
+                        "well-formed buffers), C17.thetaLoop_fuel; bezier_flat_after_statement is stated, not proved",
+        "encode_total": "PROVED: the [HitObjects] part never panics for any map (encodeHitObjects_no_panic); the whole encoder never panics for any map — decoded or hand-built — "
+                        "whose slider distances d satisfy `0 <= min(100000, d)` (encode_no_panic_of_nonneg_dist), and that hypothesis is exactly the f64::clamp assertion of "
+                        "SliderEventsIter::new (Lemmas/EncodeTotal.lean runUse_panicked_iff; collectObject_panics: an osu!-mode map with one violating slider does panic). "
+                        "A NaN distance is harmless (f64::min ignores NaN: min_maxLen_nan; observed on both sides for a decoded NaN-length slider). NOT proved: "
+                        "decoded_dist_nonneg_statement — that a decoded map's slider distances are non-negative (the decoder stores only expected lengths >= EPSILON, so this is "
+                        "non-negativity of the natural length optimized_len + sum of segment lengths: an order/rounding fact, law-dependent); "
+                        "encode_decoded_no_panic_of_dist_nonneg reduces encode_decoded_no_panic_statement to it, and distOk_of_three (with dist_cases / curveDist_cases: a slider's distance is 0.0, its "
+                        "natural length or its stored expected distance) reduces the hypothesis to three scalar facts: 0 <= min(100000, 0), 0 <= min(100000, L) for stored expected "
+                        "distances, 0 <= min(100000, natural length). For maps edited through the public API the assertion CAN fail "
+                        "in the real crate: expected_dist = Some(-1e-6) on an osu!-mode Catmull slider whose first cumulative length is negative by rounding gives dist = -1e-6 and "
+                        "Beatmap::encode_to_string panics in collect_samples (witness in the level text); outside this property's quantifier (maps obtained by decoding). "
+                        "Fuel of the tick loop: C20.ticks_fuel_suffices (law-dependent). `String::from_utf8` cannot fail because the model's output is a `List Char`",
         "memory safety of the three unsafe blocks / stack depth / allocation": "outside any model; the guards are theorems (unsafe_guard_nonzero, suffix_guarded, C06.clean_always for point_split's scratch)",
     }
-    level_text = ("Lean 4 theorems over the whole decode model (reader, framing, nine decoders, finaliser) and the encoder model: decoding an in-memory buffer never yields an error "
-                  "for any decoder and any bytes; an error is always the reader's own first fault; decoded sliders have ≤ 9001 node sample sets; the NonZeroU32::new_unchecked guards "
-                  "hold; the finaliser is total on maps without sliders and otherwise fails only through an explicit curve outcome. Tied to the code by whole-file differentials "
+    level_text = ("Lean 4 theorems over the whole decode model (reader, framing, nine decoders, finaliser, curve code) and the encoder model: decoding an in-memory buffer never "
+                  "yields an error for any decoder and any bytes; an error is always the reader's own first fault; decoded sliders have ≤ 9001 node sample sets; the "
+                  "NonZeroU32::new_unchecked guards hold; the curve computation (calculate_path with all four segment kinds, the Bezier flattening on reused scratch buffers, "
+                  "the joint de-duplication, calculate_length, position_at on the result) cannot reach any of its index / slice / subtraction panics, for every arithmetic "
+                  "instance, mode, control-point list, expected length and fuel, on all well-formed buffers — hence the finaliser and `From<BeatmapState> for Beatmap` return a "
+                  "value or exhaust the model's loop fuel, never panic (decode_total_modulo_fuel); the encoder can panic only through the f64::clamp assertion of "
+                  "SliderEventsIter::new, exactly when a slider distance d has ¬(0 <= min(100000, d)), and never does when all distances satisfy it. Not proved: loop fuel "
+                  "sufficiency in IEEE (only the structural bound bezier_fuel_suffices under an explicit flatness hypothesis) and non-negativity of decoded slider distances "
+                  "(law-dependent; stated as decoded_dist_nonneg_statement). Observed with the real crate: NaN distance (decoded integer-coordinate witness "
+                  "`0,0,1000,2,0,L|P|104350:-45691|104342:-46372|104334:-47052,1`) encodes without panic; `sev` with total_dist = -5 panics in model and crate alike; a map edited "
+                  "through the public API (osu! Catmull control points 0:0:L 358637bd:0:C 46aa183e:c33e654e 46b44129:c349c4a4 4734e36a:c3ca7a43 47990b20:c42b4f34 "
+                  "47b8bccf:c44ec944 as f32 bits, expected_dist = Some(-1e-6)) has dist = -1e-6 and makes Beatmap::encode_to_string panic (`min > max`) — not a decoded map. "
+                  "Tied to the code by whole-file differentials "
                   "(`dec9`, `enc`: all nine decoders and the encoded text, character for character) over noise, grammar-with-hostile-numerics, mutations/splices/truncations of "
                   "the bundled maps and all encodings; the harness is built with debug assertions and overflow checks, runs every request under catch_unwind, and the `total` oracle "
                   "requires a value from every decoder, a successful encode, and a successful re-decode.")
-    technique = "Lean 4 proof (totality by construction + error-origin theorem) + whole-file differential with panic/overflow detection"
+    technique = "Lean 4 proof (totality by construction, error-origin theorem, index safety of the curve code as unreachability of the model's explicit panic outcomes) + whole-file differential with panic/overflow detection"
     trusted_base = [
         "Lean 4.33.0 kernel; axioms ⊆ {propext, Classical.choice, Quot.sound} per #print axioms",
         "hand-written model of the whole crate tied to /repo by the `dec9` / `enc` differentials of this run",
